@@ -85,7 +85,7 @@ def string_to_sign(rep, tier):
         rep.fail_inconclusive("V2 string to sign: %s" % e)
         return
     shapes = ("header mode: (query pairs, headers) in {(2,0), (1,1), (0,3)} path style, (1,1) virtual-hosted; presigned mode: (1,1) path style, "
-              "(2,0), (0,2) virtual-hosted") if tier == "quick" else "both modes x both styles x (query pairs, headers) in {(2,0), (2,1), (1,2), (0,3), (0,4)}"
+              "(2,0), (0,2) virtual-hosted") if tier == "quick" else "both modes x both styles x (query pairs, headers) in {(2,0), (1,1), (0,3)} over all 22 sub-resources, plus (2,1) with a 7-name domain, (1,2) and (0,4)"
     rep.bound("V2 string to sign: %s; names and values symbolic strings; query names pairwise distinct; single-valued headers at most once" % shapes)
     if problems:
         for k, what in sorted(problems.items()):
